@@ -374,13 +374,18 @@ func (c *Ctx) c02OnOff() error {
 		"func f() int { a := 7; b := 0; return a / b }; y := f(); y",
 	}
 	inputs = append(corpus, inputs...)
-	nprog := 150
+	nprog := 400
 	if c.Thorough() {
 		nprog = 6000
 	}
 	for i := 0; i < nprog; i++ {
-		p := c08Program(c.RNG, 2+c.RNG.Intn(3))
-		inputs = append(inputs, p.Src+"\nmain()\n")
+		if i%4 == 0 {
+			p := c08Program(c.RNG, 2+c.RNG.Intn(3))
+			inputs = append(inputs, p.Src+"\nmain()\n")
+		} else {
+			p, _ := GenProgram(c.RNG, 2+c.RNG.Intn(3))
+			inputs = append(inputs, p.Src+"\nmain()\n")
+		}
 	}
 	for i, src := range inputs {
 		off, on := evalMode(src, false), evalMode(src, true)
